@@ -413,7 +413,7 @@ func runBatch(c *vf.Ctx, u *universe, name string) {
 	deaths := 0
 	for start < len(cases) {
 		res := c.RunChild(vf.ChildOpts{Name: "batch", Args: []string{name, strconv.Itoa(start)}, MemKB: childMemKB,
-			Stdin: bytes.Join(lines[start:], nil), Env: []string{"GOMAXPROCS=1"}, Timeout: 20 * time.Minute})
+			Stdin: bytes.Join(lines[start:], nil), Env: []string{"GOMAXPROCS=1"}, Timeout: time.Duration(c.Pick(4, 20)) * time.Minute})
 		mergeCal(&res)
 		if res.TimedOut {
 			c.Inconclusive(fmt.Sprintf("batch %s: watchdog fired at case %s", name, res.LastMark))
